@@ -45,12 +45,18 @@ def replay(d):
                 if a == 1:
                     self.not_implemented()
                 a -= 2
+                kind_ = 'i' if a < len(input_names) else 'v'
+                mode = 0
+                for mkey in (repr(('mode', kind_)), repr(('mode', kind_, line_name)), repr(('mode', kind_, line_name, node))):
+                    if mkey in program:
+                        mode = program[mkey]
+                MISSING = -1
                 if a < len(input_names):
                     name = input_names[a]
-                    val = i[name]
+                    val = i[name] if mode == 0 else (i.get(name, MISSING) if mode == 1 else (1 if name in i else 0))
                 else:
                     name = targets[a - len(input_names)]
-                    val = v[name]
+                    val = v[name] if mode == 0 else (v.get(name, MISSING) if mode == 1 else (1 if name in v else 0))
                     log.append(('read_line_ok', line_name, name))
                 reads.append(val)
                 pname = 'pred_%s_%d' % (line_name.replace('.', '_').replace(':', '_'), len(node))
@@ -89,9 +95,16 @@ def replay(d):
             super().__init__(__class__, inputs, req, opt, **kwargs)
     forms = [FormA, FormB] if second else [FormA]
 
-    def new_store():
+    def new_store(preset=None):
         cp = configparser.ConfigParser()
+        for name, text in (preset or {}).items():
+            sec, key = name.split('.')
+            if not cp.has_section(sec):
+                cp.add_section(sec)
+            cp.set(sec, key, text)
         for name in input_names:
+            if name in (preset or {}):
+                continue
             if wit['present'].get(name):
                 sec, key = name.split('.')
                 if not cp.has_section(sec):
@@ -100,7 +113,7 @@ def replay(d):
         return hinputs.InputStore(cp)
 
     def run(store, ranks, prompting=True):
-        cnt = {'prompts': {}, 'after_refusal': 0, 'refused': False, 'attempts': {}, 'total': 0, 'waits': {}, 'plog': []}
+        cnt = {'prompts': {}, 'after_refusal': 0, 'refused': False, 'attempts': {}, 'total': 0, 'waits': {}, 'plog': [], 'answered': {}}
 
         def prompt(missing, needed_by):
             name = missing.name()
@@ -108,8 +121,13 @@ def replay(d):
             if cnt['refused']:
                 cnt['after_refusal'] += 1
             cnt['plog'].append((name, [f.name() for f in needed_by]))
-            if wit['answers'].get(name, False):
-                return (str(_h('inval', name)), True)
+            a_ = int(wit['answers'].get(name, 0))
+            if a_ == 1:
+                cnt['answered'][name] = str(_h('inval', name))
+                return (cnt['answered'][name], True)
+            if a_ == 2:
+                cnt['answered'][name] = ''
+                return ('', True)
             cnt['refused'] = True
             return (None, False)
         s = hsolver.Solver(store, forms, prompt=prompt if prompting else None)
@@ -122,6 +140,15 @@ def replay(d):
                 raise RuntimeError('StepBudget')
             return orig(field)
         s._attempt_field = attempt
+        for tr in (s._field_dependencies, s._input_dependencies):
+            ohm = tr.has_met
+
+            def has_met(_o=ohm):
+                cnt['loops'] = cnt.get('loops', 0) + 1
+                if cnt['loops'] > 4000:
+                    raise RuntimeError('StepBudget')
+                return _o()
+            tr.has_met = has_met
         for tr, label in ((s._field_dependencies, 'f'), (s._input_dependencies, 'i')):
             oa = tr.add_unmet
 
@@ -213,6 +240,8 @@ def replay(d):
                 closure.add(fld.name())
         for name, rs in reads_by.items():
             closure.update(rs)
+        if closure - valued:
+            found.append('solved-but-read-line-unvalued')
         if closure != valued:
             found.append('closure-mismatch')
         if set(s.forms) != set(n.split('.')[0] for n in valued) | set(['fa'] + list(b.get('extra_requested', []))):
@@ -237,5 +266,9 @@ def replay(d):
             found.append('asks-again')
         if sig(r3) != sig(r1):
             found.append('rerun-differs')
+            found.append('file-vs-prompt')
+    if not cnt['refused']:
+        r4 = run(new_store(cnt['answered']), None)
+        if sig(r4) != sig(r1) and not r4['cnt']['refused'] and 'file-vs-prompt' not in found:
             found.append('file-vs-prompt')
     return {'found': sorted(set(found)), 'detail': 'solved=%s values=%s unimplemented=%s' % (r1['solved'], sorted(valued), sorted(unimpl))}
